@@ -21,7 +21,7 @@ ASSUMPTIONS = [
 ]
 MANIFEST = {'text': 'structural necessary conditions for window delivery: the filtered index is never consulted for a stream without active filters, a window change resets both ranges consistently and renews the id, '
                     'and the sender advances its sent-range exactly to the end of what it sent.'
-                    ' Added: search paging continuation equals the loop counter advanced exactly once per examined element; the index builder marks as processed exactly what it filtered; time lookups use partition_point with a strict predicate, binary_search only on unique keys.',
+                    ' Added: search paging continuation equals the loop counter advanced exactly once per examined element; the index builder marks as processed exactly what it filtered; time lookups use partition_point with a strict predicate, binary_search only on unique keys. Added: lookups return the position found by the search primitive unmodified (no clamp / min / arithmetic), also through position helpers.',
             'technique': 'static analysis: who-may-read + dominating-guard (control dependence) check, store pairing, must-pass-through on the CFG'}
 
 SC = 'adlt::utils::remote_utils::StreamContext'
@@ -557,6 +557,7 @@ def check_builder_progress(F, G8):
         elif t == 'usize' and off_param is None:
             off_param = b.name_of(i)
     ends = []
+    end_sites = []      # (end expression, block of the slicing): only a slice taken on the way to the store was filtered there
     for blk in b.calls():
         t = blk.term
         if t.callee.path.endswith('::index') and len(t.args) > 1:
@@ -565,6 +566,7 @@ def check_builder_progress(F, G8):
                 r = E.operand(t.args[1])
                 if isinstance(r, tuple) and r[0] == 'agg' and r[1].endswith('Range::Range') and len(r[2]) == 2:
                     ends.append(r[2][1])
+                    end_sites.append((r[2][1], blk.i))
     G8.floor('slices of the new messages handed to the matcher', len(ends), 2)
     n = 0
     for blk in b.blocks:
@@ -576,18 +578,19 @@ def check_builder_progress(F, G8):
                 if not under:
                     continue
                 # `marker = if fits { offset + end } else { first_unwanted }`: judge every definition of the stored temp
-                vals = [(E.rvalue(s.rv), s)]
+                vals = [(E.rvalue(s.rv), s, blk.i)]
                 if s.rv['k'] == 'use':
                     o_ = Operand(s.rv['o'])
                     if o_.place is not None and o_.place.is_local and not o_.place.p and len(cfg.defs.get(o_.place.l, [])) > 1 and \
                             all(si_ != 'call' for (_b, si_, _d) in cfg.defs[o_.place.l]):
-                        vals = [(E.rvalue(d_.rv), d_) for (_b, si_, d_) in cfg.defs[o_.place.l]]
-                for (e, s) in vals:
+                        vals = [(E.rvalue(d_.rv), d_, _b) for (_b, si_, d_) in cfg.defs[o_.place.l]]
+                for (e, s, at_) in vals:
                     n += 1
                     G8.sites += 1
                     ok = False
-                    if isinstance(e, tuple) and e[0] == 'bin' and e[1] == 'Add' and e[2] == ('place', off_param) and e[3] in ends:
-                        ok = 'offset + end of a filtered slice'
+                    if isinstance(e, tuple) and e[0] == 'bin' and e[1] == 'Add' and e[2] == ('place', off_param) and \
+                            any(e[3] == en and (cfg.dominates(eb, at_) or cfg.dominates(eb, blk.i)) for (en, eb) in end_sites):
+                        ok = 'offset + end of the slice filtered on the way to this store'
                     se = show(e)
                     if not ok and not se.startswith('Add(') and from_matcher_result(F, e):
                         ok = 'index of the first unwanted match taken from the matcher result'
